@@ -92,7 +92,7 @@ def judge2_c07(line, impl):
         sent = "".join(w for w in t[6].split(",") if w != "-") or "-"
         return ("recread %s %s %s %s %s %s" % (t[1], t[2], t[3], t[4], wire, sent), "%s eof 1" % sent)
     return None
-HOOK_COMMITS = ["f0964c3", "f0ee85c", "a38392f", "da161e5", "5e35e30", "48a35e4", "bcc879f", "e7e32d2", "7bc6616", "1d0b9a9", "1418b64", "cbd428e", "2855402", "ccf80ce"]
+HOOK_COMMITS = ["f0964c3", "f0ee85c", "a38392f", "da161e5", "5e35e30", "48a35e4", "bcc879f", "e7e32d2", "7bc6616", "1d0b9a9", "1418b64", "cbd428e", "2855402", "ccf80ce", "3a7a9aa"]
 NOT_BUILT_REASON = "no check registered yet: the Lean model/theorems and the correspondence harness for this property have not been built in this session (work in progress, see DESIGN.md §12); the technique applies"
 
 PROPS["C05"] = {
@@ -219,8 +219,13 @@ PROPS["C07"] = {
     "tie_ops": ["expad"],
     "judge": judge_c07,
     "judge2": judge2_c07,
-    "modules": ["Gmsm.Props.C07", "Gmsm.Props.C07CBC", "Gmsm.Props.C07Pad", "Gmsm.Props.C07Stream"],
+    "modules": ["Gmsm.Props.C07", "Gmsm.Props.C07CBC", "Gmsm.Props.C07Pad", "Gmsm.Props.C07Stream", "Gmsm.Props.C06Read"],
     "theorems": [
+        "Props.C06Read.read_stream",
+        "Props.C06Read.read_after_error",
+        "Props.C06Read.read_empty_limit_hit",
+        "Props.C06Read.read_empty_limit_ok",
+        "Props.C06Read.read_lookahead_no_drop",
         "Props.C07Stream.write_fragments",
         "Props.C07Stream.write_seq",
         "Props.C07Stream.writeRecords_fuel",
@@ -245,7 +250,7 @@ PROPS["C07"] = {
     ],
     "gen_items": [],
     "level": "proof",
-    "claim": "Two layers. (1) An abstract authenticated channel over an AEAD with an authenticity hypothesis (ideal primitive, never an axiom): for EVERY record sequence an adversary feeds the receiver the delivered payloads are a prefix of those sent, the first rejected record is fatal, an untouched stream is delivered in full - induction over the receiver's input; it rests on the proved injectivity of seq||type||version||length and of the GCM nonce salt||seq. (2) A byte-exact Lean model of halfConn.encrypt/decrypt, Conn.Write (1/n-1 split, dynamic record sizing, explicit IV / nonce) and Conn.Read/readRecord with real SM4/HMAC-SM3/GCM: sequence numbers step by exactly one, the GCM record round-trips; it predicts the wire bytes of the real code and the outcome (delivered bytes, alert) for tampered streams, compared on every run. Added: decrypt_encrypt_cbc (the SM4-CBC + HMAC-SM3 record written by halfConn.encrypt is accepted at the same sequence number and yields the payload, for all keys, IVs, types, payloads) and extractPaddingGo_spec: a bit-level transcription of the constant-time extractPadding (uint64/int32/byte arithmetic, the mask and AND-fold tricks) returns exactly (paddingLen+1, 255 iff the last paddingLen+1 bytes all equal paddingLen and fit) for every payload shorter than 2^31 bytes; the driver evaluates both models on every expad op. Wire level, both suites, over the model of Conn.Write / readRecord that is compared with the code on every run (Props.C07Stream): write_fragments (the records of one Write are the encryptions under consecutive sequence numbers of non-empty fragments of at most 16384 bytes whose concatenation is the data; 1/n-1 split for CBC; the loop fuel never runs out), stream_preserved / stream_prefix (any list of writes, fed to a synchronised receiver, is delivered exactly and in order, with status eof; the two ends stay in step), cbc_prefix_delivery (MAC-then-encrypt: for ARBITRARY wire bytes the data delivered is a prefix of what was sent, assuming only that a MAC that verifies on a (seq, type, data, tag) cut from the wire was computed by the sender - no assumption on the block cipher; cbc_violation_yields_forgery is the reduction), gcm_prefix_delivery (the same for readAll under the AEAD hypothesis), sticky / sticky_after_honest / rejected_final (the first rejected record ends delivery with alert 20), seq_advances_by_one (each accepted record advances the sequence number by exactly one, a rejected one not at all). Sequence numbers across every byte-carry boundary of the 8-byte counter are compared by the recwrites/recreads ops (start at 2^(8k)-1-j, replay of the low-numbered records after the carry).",
+    "claim": "Two layers. (1) An abstract authenticated channel over an AEAD with an authenticity hypothesis (ideal primitive, never an axiom): for EVERY record sequence an adversary feeds the receiver the delivered payloads are a prefix of those sent, the first rejected record is fatal, an untouched stream is delivered in full - induction over the receiver's input; it rests on the proved injectivity of seq||type||version||length and of the GCM nonce salt||seq. (2) A byte-exact Lean model of halfConn.encrypt/decrypt, Conn.Write (1/n-1 split, dynamic record sizing, explicit IV / nonce) and Conn.Read/readRecord with real SM4/HMAC-SM3/GCM: sequence numbers step by exactly one, the GCM record round-trips; it predicts the wire bytes of the real code and the outcome (delivered bytes, alert) for tampered streams, compared on every run. Added: decrypt_encrypt_cbc (the SM4-CBC + HMAC-SM3 record written by halfConn.encrypt is accepted at the same sequence number and yields the payload, for all keys, IVs, types, payloads) and extractPaddingGo_spec: a bit-level transcription of the constant-time extractPadding (uint64/int32/byte arithmetic, the mask and AND-fold tricks) returns exactly (paddingLen+1, 255 iff the last paddingLen+1 bytes all equal paddingLen and fit) for every payload shorter than 2^31 bytes; the driver evaluates both models on every expad op. Wire level, both suites, over the model of Conn.Write / readRecord that is compared with the code on every run (Props.C07Stream): write_fragments (the records of one Write are the encryptions under consecutive sequence numbers of non-empty fragments of at most 16384 bytes whose concatenation is the data; 1/n-1 split for CBC; the loop fuel never runs out), stream_preserved / stream_prefix (any list of writes, fed to a synchronised receiver, is delivered exactly and in order, with status eof; the two ends stay in step), cbc_prefix_delivery (MAC-then-encrypt: for ARBITRARY wire bytes the data delivered is a prefix of what was sent, assuming only that a MAC that verifies on a (seq, type, data, tag) cut from the wire was computed by the sender - no assumption on the block cipher; cbc_violation_yields_forgery is the reduction), gcm_prefix_delivery (the same for readAll under the AEAD hypothesis), sticky / sticky_after_honest / rejected_final (the first rejected record ends delivery with alert 20), seq_advances_by_one (each accepted record advances the sequence number by exactly one, a rejected one not at all). Sequence numbers across every byte-carry boundary of the 8-byte counter are compared by the recwrites/recreads ops (start at 2^(8k)-1-j, replay of the low-numbered records after the carry). Read-side consequences (Props.C06Read): nothing is delivered after a stored error (read_after_error), 101 consecutive empty records end in io.ErrNoProgress while 100 are skipped (read_empty_limit_hit / _ok).",
     "note": "Trusted: Lean kernel; authenticity of the AEAD / MAC is a hypothesis of prefix_delivery (INT-CTXT for the sender's sealed set); the CBC+HMAC suite is covered by the byte-exact model and correspondence, its round-trip and the Go bit-trick extractPadding are compared (expad) but not proved; crypto/cipher CBC/GCM and crypto/hmac are stdlib.",
     "trusted_base": [
         "Model.Record mirrors gmtls/conn.go halfConn.encrypt/decrypt, writeRecordLocked, maxPayloadSizeForWrite, Write, readRecord, Read for version 0x0101; tie = recwrite (exact wire bytes incl. explicit IVs from Config.Rand and nonce = seq) and recread (delivered bytes + alert for bit flips in every record region, truncation, extension, swap, duplicate, drop, injection, cross-connection replay, header edits), hook gmtls.VerifEstablished",
@@ -363,25 +368,72 @@ PROPS["C14"] = {
 }
 
 PROPS["C09"] = {
-    "modules": ["Gmsm.Props.C09", "Gmsm.Props.C09Ext"],
+    "modules": ["Gmsm.Props.C09", "Gmsm.Props.C09Ext", "Gmsm.Props.C09Names"],
     "theorems": [
+        "Props.C09Names.san_roundtrip",
+        "Props.C09Names.sanIP_v4mapped",
+        "Props.C09Names.sanIP_changes_only_mapped",
+        "Props.C09Names.sanIP_idem",
+        "Props.C09Names.encSAN_injective",
+        "Props.C09Names.encSAN_injective_normal",
+        "Props.C09Names.nameConstraints_roundtrip",
+        "Props.C09Names.nameConstraints_roundtrip_nonempty",
+        "Props.C09Names.nameConstraints_non_ia5_refused",
+        "Props.C09Names.oidlist_roundtrip",
+        "Props.C09Names.eku_roundtrip",
+        "Props.C09Names.eku_roundtrip_disjoint",
+        "Props.C09Names.oid_large_arc_unreadable",
+        "Props.C09Names.ski_roundtrip",
+        "Props.C09Names.aki_roundtrip",
+        "Props.C09Names.aki_written",
+        "Props.C09Names.policies_roundtrip",
+        "Props.C09Names.crldp_roundtrip",
+        "Props.C09Names.nc_minimum_maximum_ignored",
+        "Props.C09Names.nc_other_form_empty",
+        "Props.C09Names.san_never_critical",
+        "Props.C09Names.san_emitted_iff",
+        "Props.C09Names.extension_order",
+        "Props.C09Names.critical_only",
+        "Props.C09Names.der_len_roundtrip",
+        "Props.C09Names.tlv_roundtrip",
+        "Props.C09Names.oid_subid_roundtrip",
+        "Props.C09Names.oid_subid_too_large",
+        "Props.C09Names.oid_roundtrip",
+        "Props.C09Names.decSubids_eq_readBase128",
         "Props.C09.sign_verify_consistent", "Props.C09.cross_family_rejected", "Props.C09.algo_tables_consistent",
         "Props.C09.oid_injective", "Props.C09.creators_decide_by_signer_key", "Props.C09.default_sm2_mismatch_before_repair", "Props.C09Ext.reverseBits_spec", "Props.C09Ext.reverseBits_involutive", "Props.C09Ext.asn1BitLength_spec", "Props.C09Ext.keyUsage_roundtrip", "Props.C09Ext.keyUsage_named_bits", "Props.C09Ext.keyUsage_minimal", "Props.C09Ext.keyUsage_injective", "Props.C09Ext.keyUsage_high_bit_dropped", "Props.C09Ext.keyUsage_ext_shape", "Props.C09Ext.keyUsage_ext_roundtrip", "Props.C09Ext.basicConstraints_roundtrip", "Props.C09Ext.basicConstraints_survives_iff", "Props.C09Ext.basicConstraints_unset", "Props.C09Ext.basicConstraints_flag_lost", "Props.C09Ext.basicConstraints_stable", "Props.C09Ext.int_roundtrip", "Props.C09Ext.marshalBC_roundtrip", "Props.C09Ext.basicConstraints_ext_roundtrip",
     ],
     "gen_items": ["x509."],
     "gen_obligations": ["Gen.X509.details / verifyHash / defaults / signInput_* regenerated from x509/x509.go and utils.go (signatureAlgorithmDetails, the switch in checkSignature, signingParamsForPublicKey, the raw-vs-digest guard of the three creators)"],
     "level": "proof",
-    "claim": "The decision tables of signing and verification are regenerated from the source on every run and the consistency theorem is exhaustive over them (the quantifier is the table): for every signer key family and every requested algorithm left to default or in-family, the creator accepts and the bytes the signer's scheme covers are exactly those the verifier checks for the algorithm recovered from the written OID; hash tables agree; OIDs identify algorithms. Whole objects are decided by the correspondence run: certificates, CSRs, v2 and legacy CRLs created from generated templates (negative / 20-byte serials, multi-valued and extra name attributes, UTCTime and GeneralizedTime validity, usages, constraints, SANs, name constraints, policies, extra extensions) x {SM2, RSA, ECDSA signer} x {unset, in-family, mismatching} algorithms are parsed back and compared field by field, verified under the issuer, refused under another key, and refused after every single-byte change (xor 0x01 and 0x80) of the signed bytes and of the signature BIT STRING incl. its unused-bits octet; a child issued under a parsed parent with an unusual subject must carry the parent's subject bytes and verify. Added (C09Ext): the hand-written extension codecs are modelled at byte level and proved: KeyUsage (reverseBitsInAByte, asn1BitLength, the 1-or-2 byte rule, the At(i) decode loop, the DER BIT STRING) round-trips for all 512 values, is minimal and injective; BasicConstraints encode/decode incl. the MaxPathLen/MaxPathLenZero conventions with an exact characterisation of which templates survive (basicConstraints_survives_iff), through the DER INTEGER layer for every int64; the model's extension value bytes and parsed fields are compared with real certificates for all 512 key usages and 88+ BasicConstraints templates on every run (kuext / bcext).",
+    "claim": "The decision tables of signing and verification are regenerated from the source on every run and the consistency theorem is exhaustive over them (the quantifier is the table): for every signer key family and every requested algorithm left to default or in-family, the creator accepts and the bytes the signer's scheme covers are exactly those the verifier checks for the algorithm recovered from the written OID; hash tables agree; OIDs identify algorithms. Whole objects are decided by the correspondence run: certificates, CSRs, v2 and legacy CRLs created from generated templates (negative / 20-byte serials, multi-valued and extra name attributes, UTCTime and GeneralizedTime validity, usages, constraints, SANs, name constraints, policies, extra extensions) x {SM2, RSA, ECDSA signer} x {unset, in-family, mismatching} algorithms are parsed back and compared field by field, verified under the issuer, refused under another key, and refused after every single-byte change (xor 0x01 and 0x80) of the signed bytes and of the signature BIT STRING incl. its unused-bits octet; a child issued under a parsed parent with an unusual subject must carry the parent's subject bytes and verify. Added (C09Ext): the hand-written extension codecs are modelled at byte level and proved: KeyUsage (reverseBitsInAByte, asn1BitLength, the 1-or-2 byte rule, the At(i) decode loop, the DER BIT STRING) round-trips for all 512 values, is minimal and injective; BasicConstraints encode/decode incl. the MaxPathLen/MaxPathLenZero conventions with an exact characterisation of which templates survive (basicConstraints_survives_iff), through the DER INTEGER layer for every int64; the model's extension value bytes and parsed fields are compared with real certificates for all 512 key usages and 88+ BasicConstraints templates on every run (kuext / bcext). Extension codecs at byte level (Model.X509Names, Props.C09Names, 92 theorems): subjectAltName, nameConstraints, extKeyUsage, subject / authority key id, certificatePolicies and CRL distribution points as buildExtensions writes them and parseCertificate reads them (the framing follows encoding/asn1's parseTagAndLength / parseBase128Int branch for branch): round trips for all well-formed inputs with the exact normal forms (san_roundtrip: IPv4-mapped addresses come back as 4 bytes; nameConstraints_roundtrip: empty names dropped, or unhandled when critical; eku_roundtrip: table OIDs given as unknown come back as known), injectivity of the SAN encoding on normal forms, long-form lengths and base-128 sub-identifiers for every value the reader accepts (der_len_roundtrip n < 2^31, oid_subid_roundtrip n <= MaxInt32, oid_subid_too_large), which extensions are emitted, in which order and which critical (san_emitted_iff, extension_order, critical_only). Ops sanext / sanparse / ncext / ncparse / ekuext / ekuparse / skiext / akiext / polext / crlext / extlist (775 quick).",
     "note": "Partial: the ASN.1 layer (encoding/asn1 reflection-based marshal/unmarshal) is trusted and exercised, not modelled; field round trips are intrinsic read-back oracles evaluated by the harness on the real code, the Lean side supplies the accept/reject decision and the table theorems.",
     "trusted_base": ["extract/x509.go table extraction", "harness/c09.go template generator and field comparison", "crypto/rsa, crypto/ecdsa, encoding/asn1 (stdlib)"],
     "assumptions": [],
-    "not_proved": ["name constraints / SAN / policy encoders as Lean theorems; DER long-form lengths (both modelled values are at most 15 bytes)", "verify_only_issuer over an ideal signature scheme (decided by the other-key and tamper sweeps)"],
+    "not_proved": ["RelativeName in CRL distribution points, negative OID arcs, the ExtraExtensions override; that asn1.Marshal framing equals Spec.DER.tlv is compared byte for byte on every run, not proved about encoding/asn1", "verify_only_issuer over an ideal signature scheme (decided by the other-key and tamper sweeps)"],
 }
 
 PROPS["C17"] = {
-    "tie_ops": ["ber2der", "p7pad", "p7unpad", "bmp", "unbmp"],
-    "modules": ["Gmsm.Props.C17", "Gmsm.Props.C17Idem"],
+    "tie_ops": ["ber2der", "p7pad", "p7unpad", "bmp", "unbmp", "p12fill"],
+    "modules": ["Gmsm.Props.C17", "Gmsm.Props.C17Idem", "Gmsm.Props.C17KDF"],
     "theorems": [
+        "Props.C17KDF.pbkdf_eq_spec",
+        "Props.C17KDF.pbkdf_r0",
+        "Props.C17KDF.pbkdf_length",
+        "Props.C17KDF.pbkdf_sha1_eq_spec",
+        "Props.C17KDF.updateBlock_eq",
+        "Props.C17KDF.fillWithRepeats_spec",
+        "Props.C17KDF.pbkdf_literal20_gap",
+        "Props.C17KDF.pbkdf_literal20_panic",
+        "Props.C17KDF.mac_accepts_iff",
+        "Props.C17KDF.verify_computeMac",
+        "Props.C17KDF.mac_rejects_modified",
+        "Props.C17KDF.wrong_password_rejected_unless_kdf_collision",
+        "Props.C17KDF.getSafeContents_ok_iff",
+        "Props.C17KDF.empty_password_rule",
+        "Props.C17KDF.nonempty_password_only_bmp",
+        "Props.C17KDF.mac_failure_returns_nothing",
+        "Props.C17KDF.mac_failure_never_reaches_rest",
         "Props.C17.length_roundtrip", "Props.C17.encodeLength_long", "Props.C17.unpad_pad", "Props.C17.unpad_sound",
         "Props.C17.bmp_roundtrip", "Props.C17.bmpString_injective", "Props.C17.bmpString_rejects_astral",
         "Props.C17.verify_signer_iff", "Props.C17.verify_iff", "Props.C17.content_bound", "Props.C17.accepted_is_signed",
@@ -390,17 +442,20 @@ PROPS["C17"] = {
     ],
     "gen_items": [],
     "level": "proof",
-    "claim": "The parts of the containers that the library implements itself are modelled and proved for every input: the BER->DER transcoder's length octets read back as the same definite length on both sides of the 127/128 boundary (length_roundtrip, below 2^31), the enveloped-data block padding is removed exactly (unpad_pad, unpad_sound), BMPString passwords round-trip and are injective for every BMP string and astral characters are refused, the signed-data verdict is characterised outright (verify_signer_iff / verify_iff: known digest, signer certificate present, known algorithm pair, signature by the certified key over the content or over the DER SET of attributes whose message-digest attribute equals the digest of the content) with content_bound (another content is accepted only on a digest collision), and recipient handling (recipient_recovers for every recipient of a list with distinct issuer+serial, non_recipient_rejected). The models are executed against the real code on every run (ber2der on library-made DER, hand-made BER, mutated and 1000-deep inputs; pad/unpad; bmpString/decodeBMPString; Verify's verdict on 80 harness-built SM2 signed-data objects over 10 tamper kinds x attributes x detached x both SM3 OIDs), and whole containers are decided by intrinsic oracles on the real code: PKCS7Encrypt/PKCS7EncryptSM2 x {DES-CBC, AES-128-GCM} x {C1C3C2, C1C2C3} x 1..3 recipients x contents 0..64 KiB incl. lengths putting TLVs on the 127/128 boundary: every recipient recovers the content, a non-recipient and a recipient certificate with another key do not, every sampled single-byte corruption of an AES-GCM container gives an error or the same content; RSA SignedData through NewSignedData/AddSigner/Finish and SM2 SignedData assembled by the harness verify, and are refused after each tamper; pkcs12.Encode/DecodeAll with empty, ASCII, Cyrillic, CJK, 31/32/40/100-character passwords return the same key and certificate, refuse passwords differing in the last character, and no sampled single-byte corruption decodes to another key or certificate. Added (C17Idem): readObject_encodeTo / ber2der_encodeTo (every well-formed object's encoding is read back as that object) and ber2der_idempotent: whatever the transcoder outputs is mapped to itself (DER in, the same DER out), for outputs shorter than 2^31 bytes.",
+    "claim": "The parts of the containers that the library implements itself are modelled and proved for every input: the BER->DER transcoder's length octets read back as the same definite length on both sides of the 127/128 boundary (length_roundtrip, below 2^31), the enveloped-data block padding is removed exactly (unpad_pad, unpad_sound), BMPString passwords round-trip and are injective for every BMP string and astral characters are refused, the signed-data verdict is characterised outright (verify_signer_iff / verify_iff: known digest, signer certificate present, known algorithm pair, signature by the certified key over the content or over the DER SET of attributes whose message-digest attribute equals the digest of the content) with content_bound (another content is accepted only on a digest collision), and recipient handling (recipient_recovers for every recipient of a list with distinct issuer+serial, non_recipient_rejected). The models are executed against the real code on every run (ber2der on library-made DER, hand-made BER, mutated and 1000-deep inputs; pad/unpad; bmpString/decodeBMPString; Verify's verdict on 80 harness-built SM2 signed-data objects over 10 tamper kinds x attributes x detached x both SM3 OIDs), and whole containers are decided by intrinsic oracles on the real code: PKCS7Encrypt/PKCS7EncryptSM2 x {DES-CBC, AES-128-GCM} x {C1C3C2, C1C2C3} x 1..3 recipients x contents 0..64 KiB incl. lengths putting TLVs on the 127/128 boundary: every recipient recovers the content, a non-recipient and a recipient certificate with another key do not, every sampled single-byte corruption of an AES-GCM container gives an error or the same content; RSA SignedData through NewSignedData/AddSigner/Finish and SM2 SignedData assembled by the harness verify, and are refused after each tamper; pkcs12.Encode/DecodeAll with empty, ASCII, Cyrillic, CJK, 31/32/40/100-character passwords return the same key and certificate, refuse passwords differing in the last character, and no sampled single-byte corruption decodes to another key or certificate. Added (C17Idem): readObject_encodeTo / ber2der_encodeTo (every well-formed object's encoding is read back as that object) and ber2der_idempotent: whatever the transcoder outputs is mapped to itself (DER in, the same DER out), for outputs shorter than 2^31 bytes. PKCS#12 key derivation and integrity (Spec.PKCS12KDF, Model.PKCS12, Props.C17KDF): pkcs12/pbkdf.go as written (fillWithRepeats, the big.Int update of the I_j blocks with its drop-leading / left-pad branches, the iteration count) equals RFC 7292 B.2 for every salt, password, count, ID and size (pbkdf_eq_spec, pbkdf_sha1_eq_spec with SHA-1 transcribed in Spec.SHA1, updateBlock_eq, fillWithRepeats_spec, pbkdf_length; the literal 20 in place of u is exhibited by pbkdf_literal20_gap / _panic, unreachable with SHA-1); the MAC accepts exactly the stored digest of HMAC under the derived key (mac_accepts_iff), so a modified authenticated safe or another password is rejected unless HMAC / the KDF collide (mac_rejects_modified, wrong_password_rejected_unless_kdf_collision, as explicit hypotheses with satisfiable instances); which passwords getSafeContents tries - BMP(password), and for the empty password also nil - and that a MAC failure returns ErrIncorrectPassword and nothing else, whatever follows (empty_password_rule, nonempty_password_only_bmp, mac_failure_returns_nothing, mac_failure_never_reaches_rest). Tied by ops p12kdf / p12fill / p12mac / p12pbe / p12macrule (the generator searches the rare carry and short-block inputs with an independent reference).",
     "note": "Partial: the cryptography under the containers (SM2/RSA key wrap, DES/AES, HMAC-SHA1, RC2/3DES PBE, PKCS#12 KDF, encoding/asn1) is exercised by the intrinsic oracles, not modelled; in the theorems it appears as parameters (Prims / EPrims with CorrectE). 'By no other key' is proved only relative to the wrap scheme refusing foreign keys (other_key_partial). DES-CBC content encryption is unauthenticated, so 'a corrupted container never yields other content' is asserted for AES-GCM only (see DESIGN.md, false alarms). A full ber2der(encodeTo o) = encodeTo o theorem over the recursive object type is not proved.",
     "trusted_base": ["Model.BER / Model.PKCS7 tied by the ber2der/p7pad/p7unpad/bmp/unbmp/p7v ops (exact output equality) and by intrinsic oracles p7env/p7sign/p12 in harness/c17.go", "hooks x509.VerifBer2der/VerifPad/VerifUnpad, pkcs12.VerifBmpString/VerifDecodeBMPString", "encoding/asn1, crypto/* (stdlib)"],
     "assumptions": ["CorrectE: unwrap(wrap k) = k, dec(enc m) = m for the right keys"],
-    "not_proved": ["PKCS#12 MAC / PBE as theorems (stdlib crypto)", "no-other-key as an unconditional statement"],
+    "not_proved": ["3DES / RC2 / HMAC-SHA1 themselves (stdlib crypto; HMAC is an abstract function in the MAC theorems)", "no-other-key as an unconditional statement"],
 }
 
 PROPS["C18"] = {
     "judge": judge_parsers,
-    "modules": ["Gmsm.Props.C18", "Gmsm.Props.C02", "Gmsm.Props.C17", "Gmsm.Props.C16", "Gmsm.Props.C16Codec", "Gmsm.Props.C14Codec", "Gmsm.Props.C17Idem", "Gmsm.Props.C15Codec"],
+    "modules": ["Gmsm.Props.C18", "Gmsm.Props.C02", "Gmsm.Props.C17", "Gmsm.Props.C16", "Gmsm.Props.C16Codec", "Gmsm.Props.C14Codec", "Gmsm.Props.C17Idem", "Gmsm.Props.C15Codec", "Gmsm.Props.C09Names"],
     "theorems": [
+        "Props.C09Names.decSAN_total",
+        "Props.C09Names.sanLoop_fuel",
+        "Props.C09Names.decSAN_sound",
         "Props.C15Codec.no_stray_bytes",
         "Props.C15Codec.certCount_sound",
         "Props.C15Codec.unmarshalCertificateStatus_ocsp_no_trailing",
@@ -433,7 +488,7 @@ PROPS["C18"] = {
     ],
     "gen_items": [],
     "level": "proof",
-    "claim": "Where a Lean model of a decoder exists, totality and resource bounds are theorems for every byte string: the BER transcoder model (tied to x509/ber.go by exact-output correspondence in C17 and here) is total by construction, every object it reads consumes at least two bytes and never claims bytes beyond the input (readObject_progress / readItems_progress), and the recursion is bounded by the remaining input: with fuel 2*(len-off)+1 the model never runs out (fuel_sufficient, ber2der_total) and the result does not depend on the fuel (fuel_irrelevant) — i.e. the stack depth and loop count of the real recursive descent are at most linear in the input; the repaired code refuses nesting deeper than 128 (depth_bounded, ber2der_depth; nested129_rejected / nested128_accepted show the bound is tight) and ber2der_cost bounds the bytes EncodeTo buffers by 129 x the output size. The SM2 ciphertext parser (C02 decrypt_rejects_short: short input is an error, never an out-of-range slice), PKCS#7 unpad (C17 unpad_sound) and the ticket gate (C16) are total functions with the error branches proved. For all 62 decoder entry points of the library (sm2 Decrypt in both orderings / DecryptAsn1 / CipherUnmarshal / CipherMarshal / Verify / Decompress; x509 certificates, requests, CRLs, PKCS#7 + Verify/Decrypt/DecryptSM2 with every key-type combination incl. nil and typed nil, BER, PKCS#8 with and without password, PEM and hex keys; pkcs12 Decode/DecodeAll/ToPEM incl. correctly MAC-ed mutated contents; sm4 key PEM; all 16 gmtls handshake message parsers, the session-state parser and decryptTicket incl. correctly sealed mutated states) the check runs the quantifier's derivation on a corpus of valid encodings made by the library: every truncation, single-byte substitutions from {00,01,7f,80,ff,b^1,b^80}, every TLV length rewritten to {0,len-1,len+1,80,84ffffffff}, universal tag swaps, consistent re-sizing of elements, BER nesting 10..10^4 in definite and indefinite form, empty input and random strings (about 26000 ops quick, 296000 thorough); each call runs under recover with wall-time (max(2 s, 100 us/byte)) and allocation (64 MiB + 1024/byte) limits, decoded values are then used (verification, decryption, chain building) so that lazily crashing values count. Added: byte-level models with totality and bounds theorems now also exist for the session-state parser behind decryptTicket (C16Codec.unmarshal_total: never claims bytes beyond the input), point decompression (C14Codec.decompress_eq_none_iff: the exact set of rejected inputs) and the ASN.1 ciphertext converter (cipherMarshal_short: short input is an error), each tied to the real code by exact-output ops. Handshake message parsers (Model.TLSMessages, Props.C15Codec): for all 12 parsers with variable-length content, everything returned lies inside the input (unmarshalX_total_bounds, for every byte string), the certificate-count subtraction never wraps (certCount_sound), stray bytes after the last certificate entry are rejected even with consistent outer lengths (no_stray_bytes) and the strict parsers reject every accepted message followed by anything (unmarshalX_no_trailing); tied by the hsmsg/hsmsgm ops (panic vs reject vs fields, line for line).",
+    "claim": "Where a Lean model of a decoder exists, totality and resource bounds are theorems for every byte string: the BER transcoder model (tied to x509/ber.go by exact-output correspondence in C17 and here) is total by construction, every object it reads consumes at least two bytes and never claims bytes beyond the input (readObject_progress / readItems_progress), and the recursion is bounded by the remaining input: with fuel 2*(len-off)+1 the model never runs out (fuel_sufficient, ber2der_total) and the result does not depend on the fuel (fuel_irrelevant) — i.e. the stack depth and loop count of the real recursive descent are at most linear in the input; the repaired code refuses nesting deeper than 128 (depth_bounded, ber2der_depth; nested129_rejected / nested128_accepted show the bound is tight) and ber2der_cost bounds the bytes EncodeTo buffers by 129 x the output size. The SM2 ciphertext parser (C02 decrypt_rejects_short: short input is an error, never an out-of-range slice), PKCS#7 unpad (C17 unpad_sound) and the ticket gate (C16) are total functions with the error branches proved. For all 62 decoder entry points of the library (sm2 Decrypt in both orderings / DecryptAsn1 / CipherUnmarshal / CipherMarshal / Verify / Decompress; x509 certificates, requests, CRLs, PKCS#7 + Verify/Decrypt/DecryptSM2 with every key-type combination incl. nil and typed nil, BER, PKCS#8 with and without password, PEM and hex keys; pkcs12 Decode/DecodeAll/ToPEM incl. correctly MAC-ed mutated contents; sm4 key PEM; all 16 gmtls handshake message parsers, the session-state parser and decryptTicket incl. correctly sealed mutated states) the check runs the quantifier's derivation on a corpus of valid encodings made by the library: every truncation, single-byte substitutions from {00,01,7f,80,ff,b^1,b^80}, every TLV length rewritten to {0,len-1,len+1,80,84ffffffff}, universal tag swaps, consistent re-sizing of elements, BER nesting 10..10^4 in definite and indefinite form, empty input and random strings (about 26000 ops quick, 296000 thorough); each call runs under recover with wall-time (max(2 s, 100 us/byte)) and allocation (64 MiB + 1024/byte) limits, decoded values are then used (verification, decryption, chain building) so that lazily crashing values count. Added: byte-level models with totality and bounds theorems now also exist for the session-state parser behind decryptTicket (C16Codec.unmarshal_total: never claims bytes beyond the input), point decompression (C14Codec.decompress_eq_none_iff: the exact set of rejected inputs) and the ASN.1 ciphertext converter (cipherMarshal_short: short input is an error), each tied to the real code by exact-output ops. Handshake message parsers (Model.TLSMessages, Props.C15Codec): for all 12 parsers with variable-length content, everything returned lies inside the input (unmarshalX_total_bounds, for every byte string), the certificate-count subtraction never wraps (certCount_sound), stray bytes after the last certificate entry are rejected even with consistent outer lengths (no_stray_bytes) and the strict parsers reject every accepted message followed by anything (unmarshalX_no_trailing); tied by the hsmsg/hsmsgm ops (panic vs reject vs fields, line for line). The hand-written subjectAltName parser is total and returns only slices of its input (Props.C09Names.decSAN_total, decSAN_sound, sanLoop_fuel).",
     "note": "Partial: panic-freedom of the Go decoders themselves is decided by the mutation sweep, not by generated verification conditions (the VC generator of the design was not built); theorems cover the modelled decoders only (BER, SM2 ciphertext split, unpad, ticket gate). Password-stretching iteration counts carried by PKCS#8 / PKCS#12 inputs are exempt from the time limit, as the property says.",
     "trusted_base": ["Model.BER tied by the ber2der op (C17 generator plus the C18 nesting inputs)", "harness/c18.go limits and decoder table; hooks gmtls/pkcs12 export_verif_c18.go (parsers, ticket and PFX re-sealing)", "Go runtime recover() semantics; runtime.MemStats for the allocation measure"],
     "assumptions": [],
@@ -461,8 +516,19 @@ PROPS["C16"] = {
 }
 
 PROPS["C06"] = {
-    "modules": ["Gmsm.Props.C06", "Gmsm.Props.C06Keys", "Gmsm.Props.C07Stream", "Gmsm.Props.C15Complete"],
+    "modules": ["Gmsm.Props.C06", "Gmsm.Props.C06Keys", "Gmsm.Props.C07Stream", "Gmsm.Props.C15Complete", "Gmsm.Props.C06Read"],
     "theorems": [
+        "Props.C06Read.read_spec",
+        "Props.C06Read.read_stream",
+        "Props.C06Read.read_chunk_independent",
+        "Props.C06Read.read_progress",
+        "Props.C06Read.read_zero_len",
+        "Props.C06Read.read_current_record",
+        "Props.C06Read.read_eof_lookahead",
+        "Props.C06Read.read_eof_not_buffered",
+        "Props.C06Read.read_lookahead_no_drop",
+        "Props.C06Read.hs_reassembly",
+        "Props.C06Read.hs_fragmentation_independent",
         "Props.C15Complete.honest_pair_completes",
         "Props.C15Complete.honest_pair_both_done",
         "Props.C15Complete.honest_pair_completes_iff",
@@ -478,17 +544,23 @@ PROPS["C06"] = {
     "gen_items": ["gmtls."],
     "gen_obligations": ["Gen.TLS.cipherSuites / gmCipherSuites / topCipherSuites / gmDefaultSuites / version and limit constants regenerated from gmtls/cipher_suites.go, gm_support.go, common.go; tables_ok re-proved on every run"],
     "level": "proof",
-    "claim": "A Lean model of what the two ends agree on (mode dispatch incl. the auto-switch by ClientHello version for all 65536 values, mutualVersion, ClientHello suite lists, the server's preference/supported pick over the regenerated suite tables with the certificate-kind and TLS-1.2-only filters, the client-certificate policy table) with theorems: whatever completes uses a suite both ends list and the server can serve, the protocol version is GMSSL 1.1 exactly for a GMSSL client on a GMSSL-capable server (never across protocols), the client-certificate count follows the policy table (policy_table is an iff over all policies x certificate kinds), forbidden combinations fail, a GMSSL pair with a mutual servable suite and a permitted certificate situation completes. The model's verdict (ok version suite client-certs / fail) is compared with real connections on every run: server mode {GMSSL-only, auto-switch, TLS} x client {GMSSL, gmtls TLS 1.0/1.1/1.2, crypto/tls 1.0/1.1/1.2} and gmtls clients against a crypto/tls server x suite lists (default, single, ordered, ECDHE-first, mismatching) x PreferServerCipherSuites x ClientAuth 0..4 x client certificate {none, trusted, other CA} x certificates static / through GetCertificate+GetKECertificate x tickets on/off; intrinsic oracles: both ends complete or both fail (no panic, no hang), same version, suite, exported keying material, the client sees exactly the configured server certificates, and random payloads of 0..40000 bytes (200 KiB in the thorough tier) written concurrently in both directions in fragments of 0..70000 bytes arrive intact. Independent decoding: wire captures plus KeyLogWriter output of real GMSSL connections (both suites, with and without client authentication) are decoded by the Lean implementation of GM/T 0024 — SM3 PRF and key block (Spec.TLSPRF), record layer (Model.Record, C07) — which must reproduce both Finished verify_data values from the plaintext transcript and decrypt every application record to the bytes the applications wrote. Added (C06Keys): gm_premaster_agree / gm_keys_agree — with the SM2 spec proved to be a group action, the server's SM2 decryption of the ClientKeyExchange returns the client's pre-master secret for every key and nonce in range, hence both ends derive the same master secret and key block. Application data as a theorem (Props.C07Stream over Model.Record): for every list of writes of any sizes the receiver reads exactly their concatenation, in order (stream_preserved, stream_prefix, write_fragments), for SM4-CBC-SM3 and SM4-GCM. ECDHE over each NIST curve alone (P-256/384/521, X25519 not offered) is exercised so that shared secrets with leading zero bytes occur (every second P-521 handshake). At the level of the message automaton, every compatible pair of honest endpoints completes in both directions, for every configuration (Props.C15Complete.honest_pair_completes / honest_pair_both_done / honest_pair_completes_iff).",
+    "claim": "A Lean model of what the two ends agree on (mode dispatch incl. the auto-switch by ClientHello version for all 65536 values, mutualVersion, ClientHello suite lists, the server's preference/supported pick over the regenerated suite tables with the certificate-kind and TLS-1.2-only filters, the client-certificate policy table) with theorems: whatever completes uses a suite both ends list and the server can serve, the protocol version is GMSSL 1.1 exactly for a GMSSL client on a GMSSL-capable server (never across protocols), the client-certificate count follows the policy table (policy_table is an iff over all policies x certificate kinds), forbidden combinations fail, a GMSSL pair with a mutual servable suite and a permitted certificate situation completes. The model's verdict (ok version suite client-certs / fail) is compared with real connections on every run: server mode {GMSSL-only, auto-switch, TLS} x client {GMSSL, gmtls TLS 1.0/1.1/1.2, crypto/tls 1.0/1.1/1.2} and gmtls clients against a crypto/tls server x suite lists (default, single, ordered, ECDHE-first, mismatching) x PreferServerCipherSuites x ClientAuth 0..4 x client certificate {none, trusted, other CA} x certificates static / through GetCertificate+GetKECertificate x tickets on/off; intrinsic oracles: both ends complete or both fail (no panic, no hang), same version, suite, exported keying material, the client sees exactly the configured server certificates, and random payloads of 0..40000 bytes (200 KiB in the thorough tier) written concurrently in both directions in fragments of 0..70000 bytes arrive intact. Independent decoding: wire captures plus KeyLogWriter output of real GMSSL connections (both suites, with and without client authentication) are decoded by the Lean implementation of GM/T 0024 — SM3 PRF and key block (Spec.TLSPRF), record layer (Model.Record, C07) — which must reproduce both Finished verify_data values from the plaintext transcript and decrypt every application record to the bytes the applications wrote. Added (C06Keys): gm_premaster_agree / gm_keys_agree — with the SM2 spec proved to be a group action, the server's SM2 decryption of the ClientKeyExchange returns the client's pre-master secret for every key and nonce in range, hence both ends derive the same master secret and key block. Application data as a theorem (Props.C07Stream over Model.Record): for every list of writes of any sizes the receiver reads exactly their concatenation, in order (stream_preserved, stream_prefix, write_fragments), for SM4-CBC-SM3 and SM4-GCM. ECDHE over each NIST curve alone (P-256/384/521, X25519 not offered) is exercised so that shared secrets with leading zero bytes occur (every second P-521 handshake). At the level of the message automaton, every compatible pair of honest endpoints completes in both directions, for every configuration (Props.C15Complete.honest_pair_completes / honest_pair_both_done / honest_pair_completes_iff). Conn.Read's buffering as a model compared with the code (Model.ConnRead, Props.C06Read): for every list of decrypted records and every list of caller buffer sizes the bytes returned are a prefix of the data stream and all of it once the end is reported (read_stream), two ways of sizing the reads deliver the same bytes and the same ending (read_chunk_independent), a Read with room returns data or an error (read_progress), the close_notify look-ahead fires only when the current record is drained and never drops a byte (read_eof_lookahead, read_lookahead_no_drop); handshake messages are reassembled identically from every fragmentation of the stream (hs_reassembly, hs_fragmentation_independent). Ops connread / hsreasm / hsrecs.",
     "note": "Partial: the theorems are about the negotiation model; key agreement (SM2 encryption of the pre-master secret, ECDHE/RSA for TLS), certificate verification (C08/C10) and the stdlib TLS 1.0-1.2 record protection are exercised, not modelled. For crypto/tls peers only single-suite lists are used because its preference order is its own. Independent decoding covers GMSSL; TLS 1.0-1.2 interoperability is decided by completing handshakes and exchanging data with the Go standard library.",
     "trusted_base": ["Model.Negotiate tied by the hs op; extract/tls.go table extraction", "Spec.TLSPRF transcribes GM/T 0024 6.5 / RFC 5246 5 (validated by decoding real connections: Finished values and records)", "crypto/tls (stdlib) as the reference TLS implementation"],
     "assumptions": [],
-    "not_proved": ["Conn.Read with caller buffers smaller than a record (c.input buffering) as a theorem; exercised by the duplex runs with small reads", "key agreement of the TLS suites (RSA / ECDHE, stdlib crypto)"],
+    "not_proved": ["an idle connection (the model of Conn.Read covers transports that end; a Read that already holds data can wait on the look-ahead of a buffered warning alert - observed on the real code, upstream behaviour)", "key agreement of the TLS suites (RSA / ECDHE, stdlib crypto)"],
 }
 
 PROPS["C15"] = {
     "judge": lambda l, a, b: (judge_parsers(l, a, b) if l.split(" ", 1)[0] in ("hsmsg", "hsmsgm") else judge_class_only(("hsseq", "hsout", "hsflight", "chmod", "shmod"))(l, a, b)),
-    "modules": ["Gmsm.Props.C15", "Gmsm.Props.C15Codec", "Gmsm.Props.C15Complete"],
+    "modules": ["Gmsm.Props.C15", "Gmsm.Props.C15Codec", "Gmsm.Props.C15Complete", "Gmsm.Props.C06Read"],
     "theorems": [
+        "Props.C06Read.read_terminates",
+        "Props.C06Read.hs_too_long",
+        "Props.C06Read.readHandshake_tooLong",
+        "Props.C06Read.hs_truncated_is_error",
+        "Props.C06Read.hs_empty_records",
+        "Props.C06Read.ccs_requires_empty_hand",
         "Props.C15Complete.expected_accepted",
         "Props.C15Complete.accepts_iff_expected",
         "Props.C15Complete.accepts_iff",
@@ -562,11 +634,11 @@ PROPS["C15"] = {
     ],
     "gen_items": [],
     "level": "proof",
-    "claim": "Model.Handshake is the message-acceptance automaton of the gmtls endpoints as the code is: the record-layer rules of readRecord/readHandshake (record type against phase, ChangeCipherSpec only when asked for and not while part of a message is buffered, oversized records and messages, at most 5 consecutive warning alerts, close_notify/fatal alert/EOF, the GMSSL client's missing haveVers) and the per-state type assertions of the GMSSL and TLS server and client (full, client-certificate, ticket and resumption variants, NPN, the TLS client's optional CertificateStatus/ServerKeyExchange/CertificateRequest), over an alphabet of 33 events. Proved for every configuration and EVERY finite event sequence: if the handshake completes with the last event, the sequence with tolerated events erased is one of the flights expected c, which are written out per role (done_only_expected, run_done_iff, expected_*); once the stream has ended no state keeps waiting (no_wait_after_eof, eof_is_error); in every state every event other than the at most two (TLS client: four) listed types and the tolerated ones is an error, with its alert (unexpected_is_error, unexpected_cases, unexpected_cases_ccs, expected_is_taken); every step errors, completes, moves to a later phase or is a tolerated event, the sixth consecutive warning alert is fatal, and a still-running endpoint has read at most 6*8+5 events other than empty records and record-boundary artefacts (progress, six_warnings_fatal, bounded_stall, stall_bound). Version dispatch for all client_version values at once by omega: below 0x0101 and in (0x0101,0x0300) every mode rejects; the auto-switch server enters GMSSL code iff v=0x0101, TLS code iff 0x0300<=v<=0x0303 at that version, and rejects everything else including all v>0x0303; TLS-only and GMSSL-only servers cap at 0x0303; no version without a PRF is ever negotiated (dispatch_*, dispatch_version_has_prf, auto_gm_iff); a hello with unsupported version, compression or suites is refused before any ServerHello and a ServerHello names an offered, servable suite (hello_refused, hello_suite_offered). Correspondence on every run: a man in the middle between the real endpoint under test and a genuine gmtls peer applies edit scripts to the stream towards the endpoint (drop, dup, swap, retype, insert any handshake type or record-level event incl. CCS, application data, alerts, empty/oversized/unknown/wrong-version records, truncation, length-field perturbation, split/join/trailing bytes, EOF before every item, EOF of the endpoint's own stream after every record), for GMSSL/TLS/auto-switch servers and GMSSL/TLS clients in full, client-cert, ticket and resumed handshakes, plus ClientHello version sweeps 0x0000..0x0400, suite lists of known and unknown ids and compression rewrites in all three server modes; Handshake's result, panics (both ends), waiting after end of stream (decided by exact deadlock detection, not time) and the alert written are compared line by line with the model (quick 1510 ops, thorough about 31 800: all single edits at every position, all pairs of order-level edits for the GMSSL roles, seeded multi-edit scripts). Added: the client's check of a ServerHello (version, suite in offered and known, null compression) is characterised outright (client_accepts_hello_iff, client_never_accepts_unoffered) and compared with the real client by the shmod op (man-in-the-middle rewrites of the genuine ServerHello). Byte level (Model.TLSMessages, Props.C15Codec, 157 theorems): unmarshal/marshal of all 16 handshake message kinds modelled step for step (both hellos with every recognised extension, both certificate-request layouts, the uint32 wrap in the certificate loop); per message an exact acceptance characterisation (unmarshalX_iff), the round trip unmarshal(marshal m) = m for well-formed m and canonicity where the parser is strict; where it is not strict the theorem says so (unmarshalFinished_any_tail, unmarshalCertificate_header_ignored, unmarshalCertificateStatus_other_trailing). Tied by ops hsmsg (every parsed field and marshal of the re-built struct compared) and hsmsgm (marshal on arbitrary, also out-of-range, fields): every truncation of short samples with and without fixed header length, boundary cuts, consistent resize mutations. Completeness (Props.C15Complete, for every configuration): the accepted language is characterised exactly - accepts_iff: a sequence is accepted iff it is one of the flights expected c with, before each message, a gap of tolerated events that respects the limits of the code (at most 5 consecutive warning alerts, reset only by an accepted message or a non-empty handshake record; while ChangeCipherSpec is awaited nothing but warning alerts); expected_accepted / accepts_iff_expected for sequences without tolerated events; what an honest endpoint writes (Model.HandshakeSends.sends, the stream the hsflight op compares with what the real peer wrote) is accepted by the other end in both directions for every compatible pair (honest_pair_completes, honest_pair_both_done, honest_pair_completes_iff), a server accepts exactly that one flight (server_completes_only_on_honest), a client exactly the honest flights of the servers it may face (client_expected_iff, gmClient_expected). The one incompatible combination is proved too: a GMSSL client that asked for OCSP stapling aborts on the CertificateStatus a GMSSL server would send (gm_ocsp_not_accepted); gmtls' own GMSSL client never sends status_request.",
+    "claim": "Model.Handshake is the message-acceptance automaton of the gmtls endpoints as the code is: the record-layer rules of readRecord/readHandshake (record type against phase, ChangeCipherSpec only when asked for and not while part of a message is buffered, oversized records and messages, at most 5 consecutive warning alerts, close_notify/fatal alert/EOF, the GMSSL client's missing haveVers) and the per-state type assertions of the GMSSL and TLS server and client (full, client-certificate, ticket and resumption variants, NPN, the TLS client's optional CertificateStatus/ServerKeyExchange/CertificateRequest), over an alphabet of 33 events. Proved for every configuration and EVERY finite event sequence: if the handshake completes with the last event, the sequence with tolerated events erased is one of the flights expected c, which are written out per role (done_only_expected, run_done_iff, expected_*); once the stream has ended no state keeps waiting (no_wait_after_eof, eof_is_error); in every state every event other than the at most two (TLS client: four) listed types and the tolerated ones is an error, with its alert (unexpected_is_error, unexpected_cases, unexpected_cases_ccs, expected_is_taken); every step errors, completes, moves to a later phase or is a tolerated event, the sixth consecutive warning alert is fatal, and a still-running endpoint has read at most 6*8+5 events other than empty records and record-boundary artefacts (progress, six_warnings_fatal, bounded_stall, stall_bound). Version dispatch for all client_version values at once by omega: below 0x0101 and in (0x0101,0x0300) every mode rejects; the auto-switch server enters GMSSL code iff v=0x0101, TLS code iff 0x0300<=v<=0x0303 at that version, and rejects everything else including all v>0x0303; TLS-only and GMSSL-only servers cap at 0x0303; no version without a PRF is ever negotiated (dispatch_*, dispatch_version_has_prf, auto_gm_iff); a hello with unsupported version, compression or suites is refused before any ServerHello and a ServerHello names an offered, servable suite (hello_refused, hello_suite_offered). Correspondence on every run: a man in the middle between the real endpoint under test and a genuine gmtls peer applies edit scripts to the stream towards the endpoint (drop, dup, swap, retype, insert any handshake type or record-level event incl. CCS, application data, alerts, empty/oversized/unknown/wrong-version records, truncation, length-field perturbation, split/join/trailing bytes, EOF before every item, EOF of the endpoint's own stream after every record), for GMSSL/TLS/auto-switch servers and GMSSL/TLS clients in full, client-cert, ticket and resumed handshakes, plus ClientHello version sweeps 0x0000..0x0400, suite lists of known and unknown ids and compression rewrites in all three server modes; Handshake's result, panics (both ends), waiting after end of stream (decided by exact deadlock detection, not time) and the alert written are compared line by line with the model (quick 1510 ops, thorough about 31 800: all single edits at every position, all pairs of order-level edits for the GMSSL roles, seeded multi-edit scripts). Added: the client's check of a ServerHello (version, suite in offered and known, null compression) is characterised outright (client_accepts_hello_iff, client_never_accepts_unoffered) and compared with the real client by the shmod op (man-in-the-middle rewrites of the genuine ServerHello). Byte level (Model.TLSMessages, Props.C15Codec, 157 theorems): unmarshal/marshal of all 16 handshake message kinds modelled step for step (both hellos with every recognised extension, both certificate-request layouts, the uint32 wrap in the certificate loop); per message an exact acceptance characterisation (unmarshalX_iff), the round trip unmarshal(marshal m) = m for well-formed m and canonicity where the parser is strict; where it is not strict the theorem says so (unmarshalFinished_any_tail, unmarshalCertificate_header_ignored, unmarshalCertificateStatus_other_trailing). Tied by ops hsmsg (every parsed field and marshal of the re-built struct compared) and hsmsgm (marshal on arbitrary, also out-of-range, fields): every truncation of short samples with and without fixed header length, boundary cuts, consistent resize mutations. Completeness (Props.C15Complete, for every configuration): the accepted language is characterised exactly - accepts_iff: a sequence is accepted iff it is one of the flights expected c with, before each message, a gap of tolerated events that respects the limits of the code (at most 5 consecutive warning alerts, reset only by an accepted message or a non-empty handshake record; while ChangeCipherSpec is awaited nothing but warning alerts); expected_accepted / accepts_iff_expected for sequences without tolerated events; what an honest endpoint writes (Model.HandshakeSends.sends, the stream the hsflight op compares with what the real peer wrote) is accepted by the other end in both directions for every compatible pair (honest_pair_completes, honest_pair_both_done, honest_pair_completes_iff), a server accepts exactly that one flight (server_completes_only_on_honest), a client exactly the honest flights of the servers it may face (client_expected_iff, gmClient_expected). The one incompatible combination is proved too: a GMSSL client that asked for OCSP stapling aborts on the CertificateStatus a GMSSL server would send (gm_ocsp_not_accepted); gmtls' own GMSSL client never sends status_request. Byte-level reassembly of handshake messages (Props.C06Read): a header announcing more than 65536 bytes is refused as soon as its 4 bytes are there (hs_too_long, readHandshake_tooLong), a stream ending inside a message is an error and never a message (hs_truncated_is_error), a Read sequence with non-empty buffers ends (read_terminates), ChangeCipherSpec is accepted only with an empty handshake buffer (ccs_requires_empty_hand); empty handshake records are skipped without limit, as the code does (hs_empty_records).",
     "note": "Partial: message contents are not modelled; a message of the expected type is taken to carry what the genuine peer wrote. The two content outcomes the state machine depends on are explicit events: malformed (body fails to unmarshal) and finishedBad (verify_data mismatch). The driver carries the abstract rule 'an edit that changes the bytes E hashes makes the transcripts differ, so the peer rejects E's answer / E's Finished check fails'; for trunc/len edits only done/error is compared (whether the parser notices is C18's subject), for all other edits the alert code is compared too (printed 'enc' once the endpoint writes under its new keys). A protected record cannot be forged by the man in the middle, so events after ChangeCipherSpec are limited to the genuine Finished and records that fail decryption. NPN and OCSP-status branches of the automaton are proved but not exercised (two gmtls peers never negotiate them). Certificate policy outcomes (empty certificate under Require*) are content-level and not in the automaton. The code does not bound empty handshake records (empty_records_unbounded) and a TLS-only/GMSSL-only server lets 0x0101 resp. >=0x0300 through mutualVersion; both are modelled as they are and listed in harness/c15_findings.txt.",
     "trusted_base": ["Model.Handshake tied by the hsseq/hsflight/hsout/chmod ops (exact line equality incl. alert code) in harness/c15.go; the script->event translation Driver/Handshake.lean (streamOf, cipherPass, taints)", "harness deadlock detector (qWorld: all readers blocked on empty pipes) and the intrinsic oracles panic / hang / completed-on-misbehaviour", "harness/tls.go PKI and config builders; the genuine gmtls peer", "Go runtime recover()"],
     "assumptions": ["messages of the expected type carry what an honest peer sends (contents outside the model)", "transcripts that differ never produce a matching Finished (collision resistance of SM3/SHA-256 and the PRF) — used only in the driver's translation, stated there", "default Config version limits (MinVersion/MaxVersion unset)"],
-    "not_proved": ["refinement of the Go code by the automaton as a theorem (tied by correspondence runs, not by proof)", "byte-level reassembly across records (fragment/trailing are abstract events; the 64 KiB limit appears as the event oversizedMsg)", "parser totality on truncated/perturbed bodies (C18)"],
+    "not_proved": ["refinement of the Go code by the automaton as a theorem (tied by correspondence runs, not by proof)", "parser totality on truncated/perturbed bodies (C18)"],
 }
 
 PROPS["C08"] = {
